@@ -85,6 +85,15 @@ Definition schema_unitarray : schema :=
   [[[118; 97; 108; 117; 101]]   (* value *);
    [[117; 110; 105; 116; 115]]   (* units *)].
 
+Definition schema_trajectory : schema :=
+  [[[101; 110; 103; 105; 110; 101; 95; 100; 101; 115; 99; 114; 105; 112; 116; 105; 111; 110]]   (* engine_description *);
+   [[101; 110; 103; 105; 110; 101; 95; 111; 112; 116; 105; 111; 110]]   (* engine_option *);
+   [[99; 103; 109; 97; 112]]   (* cgmap *);
+   [[115; 99; 114; 105; 112; 116]]   (* script *);
+   [[115; 121; 115; 116; 101; 109]]   (* system *);
+   [[100; 97; 116; 97]]   (* data *);
+   [[116; 95; 115; 97; 109; 112; 108; 101]]   (* t_sample *)].
+
 Definition writer_species : list str := [[108; 97; 98; 101; 108]; [68]; [100; 101; 110; 115; 105; 116; 121]; [99; 104; 115; 116; 116]; [117; 110; 105; 116; 115]].   (* label D density chstt units *)
 
 Definition writer_reaction : list str := [[108; 97; 98; 101; 108]; [115; 116; 111; 105; 99; 104; 105; 111; 109; 101; 116; 114; 121]; [107; 43]; [107; 45]; [117; 110; 105; 116; 115]].   (* label stoichiometry k+ k- units *)
@@ -108,6 +117,8 @@ Definition writer_unitssystem : list str := [[115; 112; 97; 99; 101]; [116; 105;
 Definition writer_unitsdimensions : list str := [[115; 112; 97; 99; 101]; [116; 105; 109; 101]; [113; 117; 97; 110; 116; 105; 116; 121]].   (* space time quantity *)
 
 Definition writer_unitarray : list str := [[118; 97; 108; 117; 101]; [117; 110; 105; 116; 115]].   (* value units *)
+
+Definition writer_trajectory : list str := [[115; 99; 114; 105; 112; 116]; [115; 121; 115; 116; 101; 109]; [100; 97; 116; 97]; [116; 95; 115; 97; 109; 112; 108; 101]; [101; 110; 103; 105; 110; 101; 95; 100; 101; 115; 99; 114; 105; 112; 116; 105; 111; 110]; [101; 110; 103; 105; 110; 101; 95; 111; 112; 116; 105; 111; 110]; [99; 103; 109; 97; 112]].   (* script system data t_sample engine_description engine_option cgmap *)
 
 Definition uses_species : list str := [[108; 97; 98; 101; 108]; [68]; [100; 101; 110; 115; 105; 116; 121]; [99; 104; 115; 116; 116]; [117; 110; 105; 116; 115]].   (* label D density chstt units *)
 
@@ -133,10 +144,12 @@ Definition uses_unitsdimensions : list str := [[115; 112; 97; 99; 101]; [116; 10
 
 Definition uses_unitarray : list str := [[118; 97; 108; 117; 101]; [117; 110; 105; 116; 115]].   (* value units *)
 
+Definition uses_trajectory : list str := [[101; 110; 103; 105; 110; 101; 95; 100; 101; 115; 99; 114; 105; 112; 116; 105; 111; 110]; [101; 110; 103; 105; 110; 101; 95; 111; 112; 116; 105; 111; 110]; [99; 103; 109; 97; 112]; [115; 99; 114; 105; 112; 116]; [115; 121; 115; 116; 101; 109]; [100; 97; 116; 97]; [116; 95; 115; 97; 109; 112; 108; 101]].   (* engine_description engine_option cgmap script system data t_sample *)
+
 Definition dispatch_keys : list str := [[116; 121; 112; 101]].   (* read by rdspace_from_dict before a space reader is entered: type *)
 
-Definition all_schemas : list schema := [schema_species; schema_reaction; schema_network; schema_grid; schema_node; schema_edge; schema_graph; schema_system; schema_script; schema_unitssystem; schema_unitsdimensions; schema_unitarray].
+Definition all_schemas : list schema := [schema_species; schema_reaction; schema_network; schema_grid; schema_node; schema_edge; schema_graph; schema_system; schema_script; schema_unitssystem; schema_unitsdimensions; schema_unitarray; schema_trajectory].
 
-Definition writers_and_readers : list (list str * schema) := [(writer_species, schema_species); (writer_reaction, schema_reaction); (writer_network, schema_network); (writer_grid, schema_grid); (writer_node, schema_node); (writer_edge, schema_edge); (writer_graph, schema_graph); (writer_system, schema_system); (writer_script, schema_script); (writer_unitssystem, schema_unitssystem); (writer_unitsdimensions, schema_unitsdimensions); (writer_unitarray, schema_unitarray)].
+Definition writers_and_readers : list (list str * schema) := [(writer_species, schema_species); (writer_reaction, schema_reaction); (writer_network, schema_network); (writer_grid, schema_grid); (writer_node, schema_node); (writer_edge, schema_edge); (writer_graph, schema_graph); (writer_system, schema_system); (writer_script, schema_script); (writer_unitssystem, schema_unitssystem); (writer_unitsdimensions, schema_unitsdimensions); (writer_unitarray, schema_unitarray); (writer_trajectory, schema_trajectory)].
 
-Definition uses_and_readers : list (list str * schema) := [(uses_species, schema_species); (uses_reaction, schema_reaction); (uses_network, schema_network); (uses_grid, schema_grid); (uses_node, schema_node); (uses_edge, schema_edge); (uses_graph, schema_graph); (uses_system, schema_system); (uses_script, schema_script); (uses_unitssystem, schema_unitssystem); (uses_unitsdimensions, schema_unitsdimensions); (uses_unitarray, schema_unitarray)].
+Definition uses_and_readers : list (list str * schema) := [(uses_species, schema_species); (uses_reaction, schema_reaction); (uses_network, schema_network); (uses_grid, schema_grid); (uses_node, schema_node); (uses_edge, schema_edge); (uses_graph, schema_graph); (uses_system, schema_system); (uses_script, schema_script); (uses_unitssystem, schema_unitssystem); (uses_unitsdimensions, schema_unitsdimensions); (uses_unitarray, schema_unitarray); (uses_trajectory, schema_trajectory)].
